@@ -11,7 +11,7 @@ from mc.props.c04 import alphabet as c04_alphabet
 from mc.ref import pauli as rp
 from mc import seams
 
-RULE = ("task lists: EVERY list of <=L tasks over 7 concrete tasks of the three kinds (measurable with task-specific coefficients incl. a constant term, constant "
+RULE = ("task lists: EVERY list of <=L tasks over 8 concrete tasks of the three kinds (measurable with task-specific coefficients incl. a constant term, constant "
         "operators as term / sum of constants / empty sum, zero-shot non-constant) - circuits prepare basis states so every Z-term value is exactly coefficient x "
         "eigenvalue whatever the (scripted) sampler answers; shot sweep: every basis state of 3 qubits x every Z-subset x shot counts on both sides of the "
         "sampler's internal threshold; exact values: circuits x operators incl. X/Y terms vs psi^dagger M psi; binding: every list of <=3 tasks (two sharing ONE "
@@ -34,6 +34,7 @@ def tasks_pool():
     T.append((EstimationTask(PauliSum([PauliTerm("I0", 1.0), PauliTerm("I0", -0.5)]), C.Circuit([C.H(0)], n_qubits=1), 2), "constant", [0.5]))
     T.append((EstimationTask(Z([0], 1.1), C.Circuit([C.X(0)], n_qubits=1), 0), "zero-shot", [0.0]))
     T.append((EstimationTask(PauliSum(), C.Circuit([C.X(0)], n_qubits=2), 0), "constant", [0.0]))
+    T.append((EstimationTask(PauliSum([PauliTerm("I0", 4.0), Z([0], 2.0), Z([1], -3.0)]), C.Circuit([C.X(1)], n_qubits=2), 0), "zero-shot", [0.0]))
     return T
 
 
@@ -186,8 +187,8 @@ FUNCS = {"task_lists": list_case, "split": split_case, "shot_sweep": shots_case,
 def run(run):
     thorough = run.tier == "thorough"
     L = 4 if thorough else 3
-    lists = [list(c) for k in range(0, L + 1) for c in itertools.product(range(7), repeat=k)]
-    secs = [Section("task_lists", [{"tasks": l} for l in lists], list_case, horizon=120, desc="every task list of length <= %d over 7 tasks of the three kinds" % L),
+    lists = [list(c) for k in range(0, L + 1) for c in itertools.product(range(8), repeat=k)]
+    secs = [Section("task_lists", [{"tasks": l} for l in lists], list_case, horizon=120, desc="every task list of length <= %d over 8 tasks of the three kinds" % L),
             Section("split", [{"tasks": l} for l in lists if len(l) <= 3], split_case, desc="split_estimation_tasks_to_measure partitions positions in ascending order")]
     sw = [{"bits": list(b), "shots": s} for b in itertools.product((0, 1), repeat=3) for s in (1, 2, 3, 7, 8, 9, 10, 20)]
     sw += [{"bits": list(b), "shots": s} for b in itertools.product((0, 1), repeat=2) for s in (1, 3, 4, 5)]
